@@ -24,6 +24,8 @@ CHECKS = {
          "Single-threaded interleaving of producer operations and consumer polls; schedules are C10's subject.", "stateful model-based testing: bounded-exhaustive histories + proptest", "6/C08"),
  "C09": ("exploration", "The same history generator with gzip negotiated (levels 1-9, chunk sizes 1..65536, four payload classes): the body must be exactly one valid gzip member decoding to the bytes written, and after every flush a prefix decoder must reproduce everything written so far. Oracle: own RFC 1951/1952 decoder, cross-checked against flate2 on every case.",
          "One known finding (incomplete sync flush of the pinned flate2 after a large write) is listed in KNOWN_FINDINGS.txt and matched by an exact signature.", "stateful model-based testing with independent decoder oracle: bounded-exhaustive histories + proptest", "6/C09"),
+ "C10": ("exploration", "Systematic schedule exploration of the real chunker code: hook H1 (instrumented mutex) lets a harness scheduler run producer and consumer as two threads of which exactly one runs, switching only at lock acquisitions, wake() and operation boundaries; every schedule within a preemption bound is enumerated by stateless DFS for all short producer programs x consumer configurations (same/fresh waker, spurious polls, sampling), and proptest draws long programs with arbitrary choice vectors. History invariants: no quiescent state with undelivered data/end/abort, in-order complete delivery, bounded polls after the writer is gone.",
+         "Granularity lock/wake/operation boundary: complete for this code because all shared state is behind the one instrumented mutex. No weak-memory effects. Needs cargo feature verif-hooks.", "schedule enumeration (bounded-preemption DFS) + proptest over schedules, history-invariant oracle", "6/C10"),
  "C11": ("exploration", "Abort or body-drop inserted at every position of every base history of <= 3 operations (identity and gzip) followed by five more producer operations, proptest for long histories, plus memory-release measurement with a counting allocator and the gzip bounded-acceptance sub-check; the interleaved part (abort in producer programs under the C10 scheduler) is merged in.",
          "A flush with nothing to flush may succeed after the body is gone. Live-heap measurement is single-threaded.", "stateful model-based testing: exhaustive fault positions + proptest + schedule enumeration", "6/C11"),
  "C12": ("exploration", "Per-step monitor (size hint brackets the bytes still to come, exact where required; end-of-stream flag never followed by data or error) evaluated on the traces of the serve, fault, streaming and Body::from engines.",
@@ -32,6 +34,10 @@ CHECKS = {
          "Inputs limited to what http::HeaderValue / http::Method accept.", "property-based testing (proptest) with totality oracle", "6/C13"),
  "C15": ("exploration", "Metamorphic GET<->HEAD pairs over the full serve request generator and over streaming_body (Request and Parts): same status and headers, empty HEAD body, entity never read.",
          "Date is excluded from the comparison (clock-derived).", "metamorphic property-based testing (proptest)", "6/C15"),
+ "C16": ("exploration", "Differential test of should_gzip against an independent evaluator (qualities in thousandths): every list of 1-3 elements (thorough 4) over 6 codings x 11 weight spellings with rotating whitespace patterns is enumerated; proptest for longer lists/whitespace; arbitrary bytes for the no-panic clause.",
+         "Lower-case codings and q only (the stated domain); a coding listed twice admits either occurrence.", "differential testing vs. reference model: exhaustive enumeration + proptest", "6/C16"),
+ "C17": ("exploration", "streaming_body built from generated Accept-Encoding x level 0..9 x chunk size x method x Request/Parts; oracle ties the Content-Encoding header to should_gzip && level>0 and to the actual coding of the drained body (own gzip decoder), plus Vary and writer presence.",
+         "gzip level within the documented 0..=9.", "property-based testing (proptest) + enumerated core, header <-> body consistency oracle", "6/C17"),
  "C20": ("exploration", "Every body explored by the other engines polled 1-4 more times after each kind of terminal event (clean end, entity error, too short, too long) at every fault position of the C07 enumeration: no panic, no data.",
          "Entity streams are fused (the statement's proviso).", "property-based testing + exhaustive fault enumeration with extra polls", "6/C20"),
 }
